@@ -20,7 +20,7 @@ use rayon::ThreadPool;
 use uuid::Uuid;
 
 use super::BucketSegmentId;
-use super::segment::{BucketSegmentReader, EventRecord, Record};
+use super::segment::{BucketSegmentReader, EventRecord};
 use crate::error::{EventIndexError, ThreadPoolError};
 
 // Each record is 16 bytes for the Uuid and 8 bytes for the offset.
@@ -116,15 +116,15 @@ impl OpenEventIndex {
 
     /// Hydrates the index from a reader.
     pub fn hydrate(&mut self, reader: &mut BucketSegmentReader) -> Result<(), EventIndexError> {
+        // Only committed events are indexed: after a crash the segment can end in events whose
+        // commit record was never written
         let mut reader_iter = reader.iter();
-        while let Some(record) = reader_iter.next_record()? {
-            match record {
-                Record::Event(EventRecord {
-                    offset, event_id, ..
-                }) => {
-                    self.insert(event_id, offset);
-                }
-                Record::Commit(_) => {}
+        while let Some(committed) = reader_iter.next_committed_events()? {
+            for EventRecord {
+                offset, event_id, ..
+            } in committed
+            {
+                self.insert(event_id, offset);
             }
         }
 
